@@ -122,3 +122,109 @@ Check (eq_refl : py_sum_ieee = fun fp l => fold_left (fun a t => fadd64 fp a (fm
 Check (eq_refl : py_sum_exact = fun l => fold_left (fun a t => a + fst t * snd t) l 0).
 Check (eq_refl : bed_sum64 = fun fp cells => fold_left (fadd64 fp) (map (fun x => Float.fmax x fzero) cells) fzero).
 End PinC20Ieee.
+
+
+(* ---- the written file as the subject (appended; Proofs/PyArraysFile.v): statements and the wrappers they speak about ---- *)
+From BT Require Model.BBIFile Model.BigWigWrite Model.BBIRead Model.BigBedWrite Model.BBIReadBed Proofs.RTreeCodec
+  Proofs.BigWigFileChroms Proofs.BigWigFileRoundTrip Proofs.BigWigFileInput Proofs.BedEndToEnd Proofs.BedZoomFit Proofs.PyArraysFile.
+Module PinC20File.
+Import Model.PyArrays Proofs.PyArraysCover Proofs.PyArraysBed Properties.C20.
+Local Open Scope Z_scope.
+Check (C20_values_wig_written : forall fp o sizes inp bs,
+  BigWigFileRoundTrip.opts_ok o -> BigWigFileRoundTrip.input_ok sizes inp -> (Nlen bs < RTreeCodec.U64)%N ->
+  BigWigWrite.bw_write fp o sizes inp = Ok bs \/ BigWigWrite.bw_write_multipass fp o sizes inp = Ok bs ->
+  exists i, BBIRead.read_info bs = Ok i /\
+  forall num infl c, In c (map fst inp) ->
+  PyArraysFile.chrom_len i c = Some (Z.of_N (BigWigFileChroms.len_of sizes c)) /\
+  forall s e bins st missing oob,
+    PyArraysFile.values_wig_file num infl bs i c s e bins st missing oob =
+    values_wig (Z.of_N (BigWigFileChroms.len_of sizes c)) (map (PyArraysFile.wv_of num) (BigWigFileInput.vals_of inp c))
+      s e bins st missing oob).
+Check (C20_values_bed_written : forall two_pass fp o sizes autosql input f,
+  BedZoomFit.bb_write_either two_pass fp o sizes autosql input = Ok f -> BedEndToEnd.file_hyps o sizes input f ->
+  exists i, BBIRead.read_info f = Ok i /\
+  forall infl c es, In (c, es) (BigBedWrite.bruns input) ->
+  exists len, BBIFile.lookup c sizes = Some len /\ PyArraysFile.chrom_len i c = Some (Z.of_N len) /\
+  forall s e bins st missing oob,
+    PyArraysFile.values_bed_file infl f i c s e bins st missing oob =
+    values_bed true (Z.of_N len) (map PyArraysFile.be_of es) s e bins st missing oob).
+Check (C20_values_file : forall fp o sizes inp bs,
+  BigWigFileRoundTrip.opts_ok o -> BigWigFileRoundTrip.input_ok sizes inp -> (Nlen bs < RTreeCodec.U64)%N ->
+  BigWigWrite.bw_write fp o sizes inp = Ok bs \/ BigWigWrite.bw_write_multipass fp o sizes inp = Ok bs ->
+  exists i, BBIRead.read_info bs = Ok i /\
+  forall num infl c, In c (map fst inp) ->
+  Forall (fun v => (BigWigWrite.v_start v < BigWigWrite.v_end v)%N) (BigWigFileInput.vals_of inp c) ->
+  let len := Z.of_N (BigWigFileChroms.len_of sizes c) in
+  let vals := map (PyArraysFile.wv_of num) (BigWigFileInput.vals_of inp c) in
+  forall s e st missing oob, s < e ->
+  PyArraysFile.values_wig_file num infl bs i c s e None st missing oob
+    = Ok (map (base_cell (wig_at vals) len missing oob) (seqZ s (Z.to_nat (e - s))))
+  /\ forall bins, 0 < bins <= e - s ->
+     PyArraysFile.values_wig_file num infl bs i c s e (Some bins) st missing oob
+       = Ok (map (fun k => bin_cell (wig_at vals) len st missing oob
+                             (s + bin_edge k (e - s) bins) (s + bin_edge (k + 1) (e - s) bins))
+                 (seqZ 0 (Z.to_nat bins)))).
+Check (C20_values_file_bed : forall two_pass fp o sizes autosql input f,
+  BedZoomFit.bb_write_either two_pass fp o sizes autosql input = Ok f -> BedEndToEnd.file_hyps o sizes input f ->
+  exists i, BBIRead.read_info f = Ok i /\
+  forall infl c es, In (c, es) (BigBedWrite.bruns input) ->
+  exists len, BBIFile.lookup c sizes = Some len /\
+  (bed_ok 0 (Z.of_N len) (map PyArraysFile.be_of es) ->
+   forall s e st missing oob, s < e ->
+   PyArraysFile.values_bed_file infl f i c s e None st missing oob
+     = Ok (map (base_cell (bed_at (map PyArraysFile.be_of es)) (Z.of_N len) missing oob) (seqZ s (Z.to_nat (e - s))))
+   /\ forall bins, 0 < bins <= e - s ->
+      PyArraysFile.values_bed_file infl f i c s e (Some bins) st missing oob
+        = Ok (map (fun k => bin_cell (bed_at (map PyArraysFile.be_of es)) (Z.of_N len) st missing oob
+                              (s + bin_edge k (e - s) bins) (s + bin_edge (k + 1) (e - s) bins))
+                  (seqZ 0 (Z.to_nat bins))))).
+Check (eq_refl : PyArraysFile.wv_of = fun (num : N -> Z) (v : BigWigWrite.value) =>
+  {| w_start := Z.of_N (BigWigWrite.v_start v); w_end := Z.of_N (BigWigWrite.v_end v); w_val := num (BigWigWrite.v_bits v) |}).
+Check (eq_refl : PyArraysFile.be_of = fun (x : BigBedWrite.entry) =>
+  {| b_start := Z.of_N (BigBedWrite.e_start x); b_end := Z.of_N (BigBedWrite.e_end x) |}).
+Check (eq_refl : PyArraysFile.chrom_len = fun (i : BBIRead.info) (c : BBIFile.name) =>
+  match find (fun ci => BBIFile.name_eqb (BBIRead.ci_name ci) c) (BBIRead.i_chroms i) with
+  | Some ci => Some (Z.of_N (BBIRead.ci_len ci))
+  | None => None
+  end).
+Check (eq_refl : PyArraysFile.values_wig_file = fun num infl bs i c s e bins st missing oob =>
+  match PyArraysFile.chrom_len i c with
+  | None => Err PyArraysFile.E_NOCHROM_PY
+  | Some length =>
+      if e <=? s then Err 9%N else
+      let nbins := match bins with Some b => b | None => to_usize (e - s) end in
+      let '(fs, fe) := clamp s e length in
+      match BBIRead.bw_interval infl bs i c (Z.to_N fs) (Z.to_N fe) with
+      | Ok got =>
+          let fetched := map (PyArraysFile.wv_of num) got in
+          match (match bins with
+                 | Some b => to_array_bins s e fetched st b missing (Z.to_nat nbins)
+                 | None => to_array s e fetched missing (Z.to_nat nbins)
+                 end) with
+          | Ok arr => oob_fill s e length nbins oob arr
+          | Err x => Err x | Panic => Panic | Fuel => Fuel
+          end
+      | Err x => Err x | Panic => Panic | Fuel => Fuel
+      end
+  end).
+Check (eq_refl : PyArraysFile.values_bed_file = fun infl f i c s e bins st missing oob =>
+  match PyArraysFile.chrom_len i c with
+  | None => Err PyArraysFile.E_NOCHROM_PY
+  | Some length =>
+      if e <=? s then Err 9%N else
+      let nbins := match bins with Some b => b | None => to_usize (e - s) end in
+      let '(fs, fe) := clamp s e length in
+      match BBIReadBed.bb_interval infl f i c (Z.to_N fs) (Z.to_N fe) with
+      | Ok got =>
+          let fetched := map PyArraysFile.be_of got in
+          match (match bins with
+                 | Some b => to_entry_array_bins s e fetched st b missing (Z.to_nat nbins)
+                 | None => to_entry_array s e fetched missing (Z.to_nat nbins)
+                 end) with
+          | Ok arr => oob_fill s e length nbins oob arr
+          | Err x => Err x | Panic => Panic | Fuel => Fuel
+          end
+      | Err x => Err x | Panic => Panic | Fuel => Fuel
+      end
+  end).
+End PinC20File.
